@@ -25,7 +25,7 @@ func TestVerifC07Dedup(t *testing.T) {
 		dir, cleanup := simTempDir()
 		defer cleanup()
 		s := newSimSys(t, dir)
-		h := &simHist{s: s, opts: simHistOpts{MaxRounds: 9, Faults: true, Inline: true, KillAfter: true, Dedup: true, CacheActions: true, HTTP: true, RoundDuringSubmit: true,
+		h := &simHist{s: s, opts: simHistOpts{MaxRounds: 9, Faults: true, Inline: true, KillAfter: true, Dedup: true, CacheActions: true, HTTP: true, RoundDuringSubmit: true, Admission: true,
 			Universe: rapid.SampledFrom([]int{6, 12, 30}).Draw(t, "universe")}}
 		var ackErr error
 		resub := map[string]int{}
